@@ -56,6 +56,35 @@ def baseEnv {α : Type} (S : OpSem α) (st : St) (args : List α) : Env α := ba
 def evalGraph {α : Type} (S : OpSem α) (st : St) (args : List α) : Env α :=
   evalNodes S (baseEnv S st args) st.cur.nodes
 
+/-! ## function bodies over names -/
+
+abbrev NEnv (α : Type) := String → Option α
+
+def NEnv.set {α : Type} (e : NEnv α) (k : String) (v : Option α) : NEnv α := fun j => if j = k then v else e j
+
+def bindNames {α : Type} (e : NEnv α) : List String → List α → NEnv α
+  | [], _ => e
+  | o :: os, vs => bindNames (e.set o vs.head?) os vs.tail
+
+def evalFNode {α : Type} (S : OpSem α) (e : NEnv α) (n : FNode) : NEnv α :=
+  bindNames e n.outs (S.op n.domain n.op "" (plainAttrs n.attrs) (n.ins.map (fun i => i.bind e)))
+
+def bindFormals {α : Type} : List String → List (Option α) → NEnv α
+  | f :: fs, v :: vs => (bindFormals fs vs).set f v
+  | _, _ => fun _ => none
+
+/-- the values of a function's outputs on given actual values (the body's attributes as they stand: a
+    reference attribute that is still unresolved is absent). -/
+def evalBody {α : Type} (S : OpSem α) (f : Fn) (actuals : List (Option α)) : List (Option α) :=
+  let e := f.nodes.foldl (evalFNode S) (bindFormals f.formals actuals)
+  f.outputs.map e
+
+/-- what a function-call node with the attributes `passed` denotes (ONNX function semantics): the body with
+    every reference attribute bound to the passed value, else to the parameter's declared default. -/
+def callMeaning {α : Type} (S : OpSem α) (f : Fn) (passed : List (String × AVal)) (actuals : List (Option α)) :
+    List (Option α) :=
+  evalBody S (resolveFn (effectiveAttrs true f passed) f) actuals
+
 /-! ## the trace's own meaning -/
 
 structure RSt (α : Type) where
@@ -86,38 +115,18 @@ def replayStep {α : Type} (S : OpSem α) (fns : List Fn) (args : List α) (r : 
     | some f =>
       let vs := S.op f.domain f.name f.overload as (a.map (argVal S r.henv))
       ⟨r.henv ++ takeN vs (outCount (o.getD (.auto f.outputs.length))), r.nin⟩
+  | .inline fi a o _ as =>
+    -- inlining a function means what calling it means (ONNX function semantics); where `call_inline` refuses
+    -- (unknown function, a literal operand, too many operands, wrong number of `_outputs`) nothing is traced
+    match fns[fi]? with
+    | none => r
+    | some f =>
+      if !(a.all isRef) || decide (a.length > f.formals.length) || outsMismatch o f then r
+      else ⟨r.henv ++ callMeaning S f as (a.map (argVal S r.henv)), r.nin⟩
   | _ => r
 
 def replay {α : Type} (S : OpSem α) (fns : List Fn) (args : List α) (tr : List Item) : RSt α :=
   tr.foldl (replayStep S fns args) ⟨[], 0⟩
 
-/-! ## function bodies over names -/
-
-abbrev NEnv (α : Type) := String → Option α
-
-def NEnv.set {α : Type} (e : NEnv α) (k : String) (v : Option α) : NEnv α := fun j => if j = k then v else e j
-
-def bindNames {α : Type} (e : NEnv α) : List String → List α → NEnv α
-  | [], _ => e
-  | o :: os, vs => bindNames (e.set o vs.head?) os vs.tail
-
-def evalFNode {α : Type} (S : OpSem α) (e : NEnv α) (n : FNode) : NEnv α :=
-  bindNames e n.outs (S.op n.domain n.op "" (plainAttrs n.attrs) (n.ins.map (fun i => i.bind e)))
-
-def bindFormals {α : Type} : List String → List (Option α) → NEnv α
-  | f :: fs, v :: vs => (bindFormals fs vs).set f v
-  | _, _ => fun _ => none
-
-/-- the values of a function's outputs on given actual values (the body's attributes as they stand: a
-    reference attribute that is still unresolved is absent). -/
-def evalBody {α : Type} (S : OpSem α) (f : Fn) (actuals : List (Option α)) : List (Option α) :=
-  let e := f.nodes.foldl (evalFNode S) (bindFormals f.formals actuals)
-  f.outputs.map e
-
-/-- what a function-call node with the attributes `passed` denotes (ONNX function semantics): the body with
-    every reference attribute bound to the passed value, else to the parameter's declared default. -/
-def callMeaning {α : Type} (S : OpSem α) (f : Fn) (passed : List (String × AVal)) (actuals : List (Option α)) :
-    List (Option α) :=
-  evalBody S (resolveFn (effectiveAttrs true f passed) f) actuals
 
 end OV.C18
